@@ -22,6 +22,9 @@ namespace micm
     auto& initial_forcing = derived_class_temporary_variables->initial_forcing_;
     auto& K = derived_class_temporary_variables->K_;
     auto& Yerror = derived_class_temporary_variables->Yerror_;
+    // a State created for a parameter set with fewer stages does not hold enough stage vectors
+    while (K.size() < parameters.stages_)
+      K.emplace_back(Y.NumRows(), Y.NumColumns());
     const double h_max = parameters.h_max_ == 0.0 ? time_step : std::min(time_step, parameters.h_max_);
     const double h_start =
         parameters.h_start_ == 0.0 ? std::max(parameters.h_min_, DELTA_MIN) : std::min(h_max, parameters.h_start_);
